@@ -93,7 +93,47 @@ func c02Binary(ctx *Ctx, line string, b []byte) string {
 			break
 		}
 	}
+	// bytes that lie after the DECLARED end of a structure (its length is not a multiple of 8) but before the
+	// next item belong to no item of that structure: when the input decodes, the decoded content must not
+	// depend on them (an accepted value never takes content from outside the declared extent).
+	if strings.HasPrefix(first, "ok") {
+		if regs := outsideExtents(b); len(regs) > 0 {
+			alt := append([]byte{}, b...)
+			for _, rg := range regs {
+				for i := rg[0]; i < rg[1]; i++ {
+					alt[i] ^= 0xFF
+				}
+			}
+			if got, _ := decodeGeneric(alt); strings.HasPrefix(got, "ok") && got != first {
+				ctx.Res.Violate(report.Violation{Property: "C02", Oracle: "declared-extent", Key: "binary:content-from-outside-extent", Detail: fmt.Sprintf("the decoded value changes with bytes %v that lie outside the declared extent of their structure: %s vs %s", regs, got, first), Line: line})
+			}
+			ctx.Res.Count("dec.extent-varied")
+		}
+	}
 	return first
+}
+
+// outsideExtents: for every structure header reachable by walking declared lengths, the byte range between
+// its declared end and its padded end (clipped to the enclosing extent).
+func outsideExtents(b []byte) [][2]int {
+	var out [][2]int
+	var walk func(off, end, depth int)
+	walk = func(off, end, depth int) {
+		for off+8 <= end && depth < 64 {
+			l := int(b[off+4])<<24 | int(b[off+5])<<16 | int(b[off+6])<<8 | int(b[off+7])
+			pl := (l + 7) / 8 * 8
+			if b[off+3] == 1 {
+				dend := min(off+8+l, end)
+				if pend := min(off+8+pl, end); pend > dend {
+					out = append(out, [2]int{dend, pend})
+				}
+				walk(off+8, dend, depth+1)
+			}
+			off += 8 + pl
+		}
+	}
+	walk(0, len(b), 0)
+	return out
 }
 
 func init() {
@@ -123,6 +163,14 @@ func wireEncCase(ctx *Ctx, t *tree.Item) {
 			ctx.Res.Violate(report.Violation{Property: "C03", Oracle: "independent-parse", Key: "enc:not-wellformed:" + err.Error(), Detail: "independent parser rejects library output: " + err.Error() + " bytes=" + hexUp(got), Line: line})
 		} else if !tree.Equal(back, t) {
 			ctx.Res.Violate(report.Violation{Property: "C03", Oracle: "independent-parse", Key: "enc:value-differs", Detail: "independent parser reads " + back.Render(), Line: line})
+		}
+		// C01 oracle (generic values): the library decodes its own encoding back to the same tree.
+		if rt, _ := decodeGeneric(got); rt != "ok "+t.Render() {
+			d := rt
+			if len(d) > 200 {
+				d = d[:200] + "…"
+			}
+			ctx.Res.Violate(report.Violation{Property: "C01", Oracle: "roundtrip-generic", Key: "enc:roundtrip:" + strings.SplitN(rt, " ", 2)[0], Detail: "UnmarshalTTLV(MarshalTTLV(v)) gives " + d + " instead of v", Line: line})
 		}
 		if want := t.Encode(); !bytes.Equal(want, got) {
 			ctx.Res.Violate(report.Violation{Property: "C03", Oracle: "independent-writer", Key: "enc:bytes-differ", Detail: "independent writer gives " + hexUp(want) + " library " + hexUp(got), Line: line})
@@ -265,6 +313,61 @@ func corpusBinary() [][]byte {
 	}
 }
 
+// largeSizes: n payload sizes around 2^8 … 2^17 (and a few random ones in between).
+func largeSizes(r *rng.R, n int) []int {
+	var out []int
+	for k := 8; k <= 17; k++ {
+		out = append(out, 1<<k-r.Intn(40), 1<<k+r.Intn(40))
+	}
+	for i := len(out) - 1; i > 0; i-- {
+		j := r.Intn(i + 1)
+		out[i], out[j] = out[j], out[i]
+	}
+	if n < len(out) {
+		out = out[:n]
+	}
+	for len(out) < n {
+		out = append(out, 200+r.Intn(150000))
+	}
+	return out
+}
+
+// largeTree: 1–4 nested structures, each with small items before and after the next level; the innermost
+// holds the payload of about sz bytes either as one byte/text string or as many small items (long batch).
+func largeTree(r *rng.R, sz int) *tree.Item {
+	small := tree.GenOpts{MaxDepth: 2, MaxChildren: 3, MaxData: 12, MaxBigBits: 64}
+	var inner []*tree.Item
+	switch r.Intn(3) {
+	case 0:
+		inner = append(inner, &tree.Item{Kind: tree.KBytes, Tag: 0x420008, Data: r.Bytes(sz)})
+	case 1:
+		b := r.Bytes(sz)
+		for i := range b {
+			b[i] = 0x20 + b[i]%0x5F
+		}
+		inner = append(inner, &tree.Item{Kind: tree.KText, Tag: 0x420008, Data: b})
+	default:
+		for n := 0; n < sz; {
+			it := tree.Gen(r, small, 1)
+			inner = append(inner, it)
+			n += len(it.Encode())
+		}
+	}
+	cur := &tree.Item{Kind: tree.KStruct, Tag: 0x420009, Children: inner}
+	for d := r.Intn(4); d > 0; d-- {
+		var ch []*tree.Item
+		for k := r.Intn(3); k > 0; k-- {
+			ch = append(ch, tree.Gen(r, small, 1))
+		}
+		ch = append(ch, cur)
+		for k := r.Intn(3); k > 0; k-- {
+			ch = append(ch, tree.Gen(r, small, 1))
+		}
+		cur = &tree.Item{Kind: tree.KStruct, Tag: 0x42000F, Children: ch}
+	}
+	return cur
+}
+
 func runWire(ctx *Ctx) {
 	if len(ctx.Replay) > 0 {
 		for _, l := range ctx.Replay {
@@ -288,6 +391,14 @@ func runWire(ctx *Ctx) {
 	r := ctx.R
 	for _, b := range corpusBinary() {
 		wireDecCase(ctx, b, "corpus")
+	}
+	// large messages: the encoder's buffer grows (and is reallocated) while one or several structures are
+	// still open, at every depth; sizes straddle the powers of two an initial capacity or a growth policy
+	// could be tied to.
+	for _, sz := range largeSizes(r, ctx.N(14, 60)) {
+		t := largeTree(r, sz)
+		wireEncCase(ctx, t)
+		wireDecCase(ctx, t.Encode(), "large")
 	}
 	opts := tree.GenOpts{MaxDepth: 5, MaxChildren: 6, MaxData: 40, MaxBigBits: 200}
 	n := ctx.N(1500, 60000)
